@@ -23,6 +23,10 @@ for m in sorted(glob.glob("seeded/*/meta.json")):
     sid = os.path.basename(os.path.dirname(m))
     out.append("| %s (%s) | %s | %s |" % (sid, ", ".join(j["files_changed"]), j["needs_to_manifest"], ", ".join("`%s`" % x for x in j["caught_by"]) if j["caught_by"] else "**missed** — " + j.get("why_missed", "value-level; outside the decided clauses")))
 out.append("")
+out += ["Side observations reported by the seeding sub-agents on the *unchanged* tree (found by reading, outside the clauses any check decides, therefore neither alarms nor known findings of "
+        "this framework; reproductions kept with the seed): (a) `reduce_no_replay` in push placement drops a lone first item that arrives after tick 0 (`was_updated` is only set inside the reduce "
+        "closure, which is not called for the first item), pull placement emits it — a C22 divergence; (b) `CrossSingleton::pull` returns Ended without pulling the item side when the singleton side "
+        "is empty, so a lazily pulled stateful operator upstream behaves differently in the same subgraph and behind a handoff — a C22 divergence (seeded/C22-1/notes).", ""]
 txt = open("DESIGN.md").read()
 txt = re.split(r"\n## 10\. As built", txt)[0].rstrip() + "\n\n" + "\n".join(out)
 open("DESIGN.md", "w").write(txt)
